@@ -12,6 +12,7 @@ source on every run, that the refusal / no-op branches of the model are present 
 import GoUtils.Proofs.Fs
 import GoUtils.Proofs.FsTerm
 import GoUtils.Proofs.FsTerm2
+import GoUtils.Proofs.FsSem
 import GoUtils.Generated.Fs
 import GoUtils.Verdict
 namespace GoUtils.Props.C06
@@ -150,6 +151,29 @@ theorem C06_write_read (t : Tree) (p : Path) (c : Nat) (h : (writeFile t p c).1 
     readFile (writeFile t p c).2 p = (if c = 0 then .err .empty else .content c) := by
   unfold readFile; rw [write_then_lookup t p c h]
 
+/-- cp of a file to a place that does not exist: found there with its content, the source kept -/
+theorem C06_copy_file_arrives (fuel : Nat) (t : Tree) (src dest : Path) (c : Nat) (t' : Tree)
+    (hsrc : lookup t src = some (.file c)) (hdest : lookup t dest = none)
+    (h : copy (fuel + 1) t src dest false = some (.ok, t')) :
+    lookup t' dest = some (.file c) ∧ lookup t' src = some (.file c) :=
+  copy_file_to_missing fuel t src dest c .ok t' hsrc hdest h
+
+/-- mv of a file to a place that does not exist: found there with its content, the source gone -/
+theorem C06_move_file_arrives (fuel : Nat) (t : Tree) (src dest : Path) (c : Nat) (t' : Tree)
+    (hsrc : lookup t src = some (.file c)) (hdest : lookup t dest = none)
+    (h : move (fuel + 1) t src dest = some (.ok, t')) :
+    lookup t' dest = some (.file c) ∧ lookup t' src = none :=
+  move_file_to_missing fuel t src dest c t' hsrc hdest h
+
+/-- mv of a directory to a place where nothing is: the whole subtree is found under the destination, entry for
+    entry (files with their content, directories, and nothing that was not there), and nothing is left at or
+    below the source -/
+theorem C06_move_directory_arrives (fuel : Nat) (t : Tree) (src dest : Path) (t' : Tree)
+    (hsrc : lookup t src = some .dir) (hs0 : src ≠ []) (hfree : ∀ e ∈ t, under dest e.1 = false)
+    (hap : under dest src = false) (h : move (fuel + 1) t src dest = some (.ok, t')) :
+    ∀ rel, lookup t' (dest ++ rel) = lookup t (src ++ rel) ∧ lookup t' (src ++ rel) = none :=
+  move_dir_to_missing fuel t src dest t' hsrc hs0 hfree hap h
+
 /-! non-vacuity: a program with an overlapping copy, a move and a removal on a concrete tree returns,
     and a bystander below a sibling directory is untouched (the hypotheses of `C06_program_frame`
     hold for it) -/
@@ -157,6 +181,11 @@ def sampleTree : Tree := [([1], .dir), ([1, 2], .file 3), ([2], .dir), ([2, 9], 
 def sampleProg : List Op := [.cp [1] [1, 5] false, .cp [1] [3] true, .mv [3] [4], .rm [1], .mkdir [4, 1, 1]]
 
 example : (run sampleTree sampleProg).isSome = true := by decide
+-- the hypotheses of the three "arrives" theorems are met on the sample tree
+example : lookup sampleTree [1, 2] = some (.file 3) ∧ lookup sampleTree [5] = none ∧
+    (copy 9 sampleTree [1, 2] [5] false).map (·.1) = some .ok ∧ (move 9 sampleTree [1, 2] [5]).map (·.1) = some .ok := by decide
+example : lookup sampleTree [1] = some .dir ∧ (∀ e ∈ sampleTree, under [5] e.1 = false) ∧ under [5] [1] = false ∧
+    (move 9 sampleTree [1] [5]).map (·.1) = some .ok := by decide
 -- the overlap cases really recurse: a source below its destination, and a directory copied under its own name
 example : ((copy (fuelFor sampleTree) sampleTree [1, 2] [1] false).map fun x => (x.1, lookup x.2 [1, 2])) = some (.ok, some (.file 3)) := by decide
 example : ((copy (fuelFor sampleTree) sampleTree [1] [1] true).map fun x => lookup x.2 [1, 1, 2]) = some (some (.file 3)) := by decide
